@@ -303,6 +303,14 @@ pub fn run_c04(tier: Tier) -> ! {
             plans.push(Plan { label: format!("1p q{q} i{i}"), cfg, depth: tier.pick(8, 11), max_states: tier.pick(60_000, 1_000_000), secs: tier.pick(60.0, 2400.0) });
         }
     }
+    // user call reset_address() (to the same address): "the process images are not changed by this
+    // operation" — and after the new bring-up the outputs on the wire are still the current output image and
+    // replies still land in the input image (found by a seeded change that swapped the two buffers)
+    for (q, i) in [(2usize, 1usize), (1, 2), (3, 3), (0, 2), (2, 0), (244, 1)] {
+        let acts = vec![Act::Answer, Act::ReplyLost, Act::ResetAddr(0), Act::UserWrite(0, 2), Act::UserWrite(0, 3), Act::InputChange(2), Act::Malformed(12)];
+        let cfg = base_cfg(vec![PeriphCfg::simple(9, i, q)], Mon::C04, acts);
+        plans.push(Plan { label: format!("1p q{q} i{i} reset_address"), cfg, depth: tier.pick(9, 13), max_states: tier.pick(60_000, 1_000_000), secs: tier.pick(60.0, 2400.0) });
+    }
     // token always late: the master only ever gets high-priority-only turns (the Global_Control broadcast is
     // never sent); the outputs must still be the current image
     for (q, i) in [(2usize, 1usize), (8, 0), (1, 9)] {
